@@ -197,3 +197,60 @@ func HarnessC11Repeat() {
 		}
 	}
 }
+
+// A render that fails at a symbolic byte offset (a dropped connection, a full
+// disk) must not change what the next render produces.
+func HarnessC11AfterFailure() {
+	p := 1 + svPick("parts", svParam("parts", 1))
+	menc := hxEnc(svPick("menc", 3))
+	src := svPick("source", 3)
+	fenc := EncodingB64
+	if svPick("fenc", 2) == 1 {
+		fenc = NoEncoding
+	}
+	m := NewMsg(WithEncoding(menc))
+	_ = m.From("a@b.c")
+	_ = m.To("d@e.f")
+	m.Subject("after failure")
+	for i := 0; i < p; i++ {
+		if i == 0 {
+			m.SetBodyString(TypeTextPlain, hxPartText[0])
+		} else {
+			m.AddAlternativeString(hxPartType[i], hxPartText[i])
+		}
+	}
+	fsys := &hxFS{files: map[string][]byte{"dir/fs.bin": []byte(hxFileData[0])}}
+	data := []byte("SEED-ATTACHMENT-START 0123456789abcdef 0123456789abcdef END\r\n")
+	switch src {
+	case 0:
+		_ = m.AttachReader("r.txt", &hxRd{data: data}, WithFileEncoding(fenc))
+	case 1:
+		m.AttachReadSeeker("rs.txt", &hxSeeker{data: data}, WithFileEncoding(fenc))
+	default:
+		_ = m.AttachFromIOFS("dir/fs.bin", fsys, WithFileEncoding(fenc))
+	}
+	w1 := &hxRecW{}
+	if _, err := m.WriteTo(w1); err != nil {
+		svAssert(false, "C11 first render failed")
+		return
+	}
+	k := svInt("fail-offset")
+	svAssume(k >= 0)
+	svAssume(k < len(w1.buf))
+	fw := &hxFailW{k: k}
+	_, ferr := m.WriteTo(fw)
+	svAssert(ferr != nil, "C11 failed render reported success")
+	svReach("failed-render")
+	w2 := &hxRecW{}
+	if _, err := m.WriteTo(w2); err != nil {
+		svAssert(false, "C11 render after a failed render returns an error")
+		return
+	}
+	svAssert(len(w2.buf) == len(w1.buf), "C11 render after a failed render has a different length")
+	if len(w2.buf) == len(w1.buf) {
+		svAssert(hxEqBytes(w2.buf, w1.buf), "C11 render after a failed render differs")
+	}
+	rd := m.NewReader()
+	out, rerr := hxReadAll(rd)
+	svAssert(rerr == nil && len(out) == len(w1.buf) && hxEqBytes(out, w1.buf), "C11 Reader output after a failed render differs")
+}
